@@ -146,7 +146,7 @@ type XStyle struct {
 var WSMenu = []string{"\n   ", " ", "\n\n", "  \n ", "\t", "\r\n   ", strings.Repeat(" ", 37), strings.Repeat(" ", 130), strings.Repeat(" ", 600)}
 var indentMenu = []string{"\n  ", "", " ", "\n\n\n", strings.Repeat(" ", 130), "\r\n\t"}
 
-const nJunk = 5
+const nJunk = 5 + 5 + 24
 
 // ChooseXRec: every property present at default; deviations pick another value,
 // drop the property, or switch it to element form.
@@ -240,6 +240,20 @@ func (rec *XRec) Serialize(st XStyle) []byte {
 		sb.WriteString(strings.Repeat("junk < with <x:xmp lookalikes <x:xmpmet ", 8))
 	case 4:
 		sb.WriteString(strings.Repeat(" ", 5000))
+	case 5:
+		sb.WriteString("<!--c-->")
+	case 6:
+		sb.WriteString("<?x?>\n")
+	case 7:
+		sb.WriteString("a < b\n")
+	case 8:
+		sb.WriteString("<<")
+	case 9:
+		sb.WriteString("<x:xmpmet")
+	default:
+		if st.Junk >= 10 { // a single '<' at every distance 1..24 before the root element
+			sb.WriteString("<" + strings.Repeat("j", st.Junk-10))
+		}
 	}
 	sb.WriteString("<x:xmpmeta xmlns:x=" + q + "adobe:ns:meta/" + q + " x:xmptk=" + q + "Verif XMP Core 1.0" + q + ">" + ind)
 	sb.WriteString("<rdf:RDF xmlns:rdf=" + q + "http://www.w3.org/1999/02/22-rdf-syntax-ns#" + q + ">" + ind)
